@@ -1030,6 +1030,17 @@ func (g *Gen) famDid() {
 		} else {
 			second = MsgSpec{T: "did.Deactivate", F: map[string]string{"did": did, "from": from}, Proof: &ProofSpec{Key: keys[i], MethodID: mids[i], Seq: "cur+1"}}
 		}
+		if r.Chance(0.35) {
+			// the deactivation comes first: whatever follows it in the same transaction meets a deactivated DID - also a
+			// proof made over the sequence the DID had before (what a handler reading a stale entry would accept)
+			first = MsgSpec{T: "did.Deactivate", F: map[string]string{"did": did, "from": from}, Proof: &ProofSpec{Key: keys[i], MethodID: mids[i], Seq: "cur"}}
+			sq := []string{"cur", "cur", "cur+1"}[r.Intn(3)]
+			if r.Chance(0.5) {
+				second = MsgSpec{T: "did.Update", F: map[string]string{"did": did, "from": from}, Doc: g.didDoc(did, []int{keys[i]}, 0), Proof: &ProofSpec{Key: keys[i], MethodID: mids[i], Seq: sq}}
+			} else {
+				second = MsgSpec{T: "did.Deactivate", F: map[string]string{"did": did, "from": from}, Proof: &ProofSpec{Key: keys[i], MethodID: mids[i], Seq: sq}}
+			}
+		}
 		id := g.emit(&TxSpec{Msgs: []MsgSpec{first, second}})
 		g.didTx = append(g.didTx, didRef{id, did})
 		if second.T == "did.Deactivate" && r.Chance(0.6) { // and straight after it, in the same block: create again
